@@ -37,7 +37,7 @@ Ltac lib_same :=
   match goal with |- context [Nat.eqb ?a ?b] => destruct (Nat.eqb_spec a b); subst; reflexivity
                 | _ => reflexivity end.
 
-Lemma stepC s tc : InvA s -> InvC s -> InvC (step s tc).
+Lemma stepC s tc : InvA s -> InvC s -> InvC (cstep s tc).
 Proof.
   intros A C. destruct tc as [t c]. ustep. cbv beta iota zeta.
   destruct (t <? nthr s) eqn:Ht; cbn [negb]; [|exact C].
@@ -145,7 +145,7 @@ Proof.
   - rewrite (a_idle s A t' L) in H. discriminate.
 Qed.
 
-Lemma stepD s tc : InvA s -> InvD s -> InvD (step s tc).
+Lemma stepD s tc : InvA s -> InvD s -> InvD (cstep s tc).
 Proof.
   intros A D. destruct tc as [t c]. ustep. cbv beta iota zeta.
   destruct (t <? nthr s) eqn:Ht; cbn [negb]; [|exact D].
